@@ -40,38 +40,104 @@ def r1(ctx, res):
             val = name_of(b["MV_v"])
     if val is not None:
         val_texts = {val}
-    skips = [st for st in lp.body if isinstance(st, ast.If) and len(st.body) == 1 and isinstance(st.body[0], ast.Continue) and not st.orelse]
-    n_cont = sum(1 for x in ast.walk(lp) if isinstance(x, (ast.Continue, ast.Break)))
-    verdict = None
-    used = None
-    if len(skips) == 1 and n_cont == 1:
-        t = skips[0].test
-        c = cmp_atom(t)
-        if c and c[1] == "==" and (c[0] in val_texts and c[2] == f"{p}.default" or c[2] in val_texts and c[0] == f"{p}.default"):
-            verdict = True
-            used = c[0] if c[0] in val_texts else c[2]
-        elif c is None or c[1] != "==" or f"{p}.default" not in (c[0], c[2]):
-            # a different kind of test on the value (truthiness, identity, ...) decides the omission
-            if any(vt in norm(t) for vt in val_texts):
-                verdict = False
-    res.judge(verdict, f, "if value == param.default: continue", detail={"skips": [norm(s_.test) for s_ in skips], "continues": n_cont},
-              reason="a keyword is omitted exactly when it EQUALS the constructor default (an equality, not a truthiness test, "
-                     "which would hide 0, False, '' and [])")
-    if used is None:
+    # one iteration of the loop as a decision table: omitted iff value == default; otherwise placed by kind
+    from .paths import decision_table_eval, eval3
+    from .norm import builders
+
+    def is_val(t):
+        return t in val_texts
+
+    truthy_on_value = []
+
+    def ev(e, A):
+        c = cmp_atom(e)
+        if c and c[1] in ("==", "!=") and ((is_val(c[0]) and c[2] == f"{p}.default") or (is_val(c[2]) and c[0] == f"{p}.default")):
+            return A["EQ"] if c[1] == "==" else (not A["EQ"])
+        if c and c[1] in ("==", "!=", "is", "is not") and c[0] == f"{p}.kind" and c[2] in (f"{p}.VAR_POSITIONAL", f"{p}.KEYWORD_ONLY"):
+            v_ = A["VAR"] if c[2].endswith("VAR_POSITIONAL") else A["KW"]
+            return v_ if c[1] in ("==", "is") else (not v_)
+        if is_val(norm(e)):
+            truthy_on_value.append(norm(e))
+        return None
+
+    def actions(path):
+        acts = set()
+        for st in path.stmts:
+            if not isinstance(st, ast.AST):
+                continue
+            for x in ast.walk(st):
+                if isinstance(x, ast.Call) and isinstance(x.func, ast.Attribute) and x.args:
+                    a0 = x.args[0]
+                    if x.func.attr == "extend" and isinstance(a0, ast.BoolOp) and is_val(norm(a0.values[0])):
+                        acts.add("extend:" + norm(x.func.value))
+                    elif x.func.attr == "extend" and is_val(norm(a0)):
+                        acts.add("extend-raw:" + norm(x.func.value))
+                    elif x.func.attr == "append" and is_val(norm(a0)):
+                        acts.add("append:" + norm(x.func.value))
+                if isinstance(x, ast.Assign) and len(x.targets) == 1 and isinstance(x.targets[0], ast.Subscript) \
+                        and norm(x.targets[0].slice) == f"{p}.name" and is_val(norm(x.value)):
+                    acts.add("kw:" + norm(x.targets[0].value))
+        return frozenset(acts)
+    table, opaque = decision_table_eval(lp.body, ["EQ", "VAR", "KW"], ev, actions)
+    ret = None
+    for pth in enumerate_paths(vb):
+        if pth.exit == "return" and pth.exit_node.value is not None:
+            ret = pth.exit_node.value
+    pos_name = kw_name = None
+    if isinstance(ret, ast.Call) and dotted(ret.func) == "Args":
+        for a_ in ret.args:
+            if isinstance(a_, ast.Starred):
+                pos_name = norm(a_.value)
+        for k_ in ret.keywords:
+            if k_.arg is None:
+                kw_name = norm(k_.value)
+    res.judge(True if (pos_name and kw_name) else None, f, "return Args(*args, **kwargs)", reason="all collected arguments are rendered")
+    if not (pos_name and kw_name):
         return
-    ok_place = has(f"if {p}.kind == {p}.VAR_POSITIONAL:\n    MV_a.extend({used} or [])\nelif {p}.kind == {p}.KEYWORD_ONLY:\n    MV_k[{p}.name] = {used}\nelse:\n    MV_a.append({used})", lp.body)
-    res.judge(True if ok_place else None, f, "placed by parameter kind (varargs / keyword-only / positional)",
-              reason="the value is put back where the constructor takes it")
-    res.check(has("return Args(*MV_a, **MV_k)", f), f, "return Args(*args, **kwargs)", reason="all collected arguments are rendered")
+    bad = {}
+    for (eq, var, kw), labels in table.items():
+        if var and kw:
+            continue
+        if eq:
+            want = {frozenset()}
+        elif var:
+            want = {frozenset({"extend:" + pos_name})}
+        elif kw:
+            want = {frozenset({"kw:" + kw_name})}
+        else:
+            want = {frozenset({"append:" + pos_name})}
+        if labels != want:
+            bad[str((eq, var, kw))] = sorted(sorted(x) for x in labels)
+    omitted_wrongly = any(k.startswith("(False") and [] in v_ for k, v_ in bad.items())
+    detail = {"mismatches": bad, "opaque": sorted(opaque), "truthiness_tests_on_the_value": sorted(set(truthy_on_value))}
+    verdict = True if not bad else (False if (truthy_on_value or omitted_wrongly or not opaque) else None)
+    res.judge(verdict, f, "if value == param.default: continue", detail=detail,
+              reason="a keyword is omitted exactly when it EQUALS the constructor default (an equality, not a truthiness test, "
+                     "which would hide 0, False, '' and []); otherwise it is put back where the constructor takes it "
+                     "(varargs / keyword-only / positional)")
     ar = ctx.func("Args.__repr__")
-    ok = has("[repr(MV_a) for MV_a in self.args]", ar) and \
-        (has("[f'{MV_k}={repr(MV_v)}' for MV_k, MV_v in self.kwargs.items()]", ar) or has("[f'{MV_k}={MV_v!r}' for MV_k, MV_v in self.kwargs.items()]", ar))
-    res.check(ok, ar, "every positional and keyword value is rendered with repr()", reason="values come back as Python expressions, none filtered")
+    var_ = view(ar, ctx.prog).body
+    pos_ok = kw_ok = None
+    for node, b in find("map(repr, self.args)", var_):
+        pos_ok = True
+    for b_ in builders(var_):
+        if norm(b_.iter) == "self.args":
+            good = not b_.guards and norm(b_.elt) in (f"repr({norm(b_.target)})",)
+            pos_ok = good if pos_ok is None else (pos_ok and good)
+        if norm(b_.iter) == "self.kwargs.items()" and isinstance(b_.target, ast.Tuple) and len(b_.target.elts) == 2:
+            k_, v_ = norm(b_.target.elts[0]), norm(b_.target.elts[1])
+            good = not b_.guards and isinstance(b_.elt, ast.JoinedStr) and \
+                (match(_parse(f"f'{{{k_}}}={{repr({v_})}}'"), b_.elt) is not None or match(_parse(f"f'{{{k_}}}={{{v_}!r}}'"), b_.elt) is not None)
+            kw_ok = good if kw_ok is None else (kw_ok and good)
+    res.judge(None if (pos_ok is None or kw_ok is None) else (pos_ok and kw_ok), ar,
+              "every positional and keyword value is rendered with repr()", reason="values come back as Python expressions, none filtered")
     cr = ctx.func("custom_repr")
-    res.check(has(f"return f'{{type({cr.params[0].name}).__name__}}{{repr(custom_repr_args({cr.params[0].name}, **overrides))}}'", cr), cr,
+    crv = view(cr, ctx.prog).body
+    res.judge(True if has(f"return f'{{type({cr.params[0].name}).__name__}}{{repr(custom_repr_args({cr.params[0].name}, **overrides))}}'", crv) else None, cr,
               "f'{type(self).__name__}{repr(custom_repr_args(self, **overrides))}'", reason="class name followed by the argument list")
     er = ctx.func("Element.__repr__")
-    res.check(has("return custom_repr(self)", er), er, "return custom_repr(self)", reason="elements use the derived repr")
+    res.judge(True if has("return custom_repr(self)", view(er, ctx.prog).body) else None, er, "return custom_repr(self)",
+              reason="elements use the derived repr")
 
 
 @rule("R3", "a generated class header omits a class keyword only when it is the default, the implied additionalProperties, or the description")
